@@ -21,5 +21,16 @@ theorem cacheableError : (Facts.cacheableErrorLo, Facts.cacheableErrorHi) = (400
 theorem headersAllowedIn304 : Facts.headersAllowedIn304 = Spec.headersAllowedIn304 := by rfl
 theorem redirectStatuses : Facts.redirectStatuses = Spec.redirectStatuses := by rfl
 theorem waitSeconds : Facts.waitSeconds = [30, 10, 5] := by rfl
+theorem effectsClose : Facts.effectsClose = Spec.effectsClose := by rfl
+theorem effectsWriteHeader : Facts.effectsWriteHeader = Spec.effectsWriteHeader := by rfl
+theorem effectsWrite : Facts.effectsWrite = Spec.effectsWrite := by rfl
+theorem effectsDelete : Facts.effectsDelete = Spec.effectsDelete := by rfl
+theorem effectsChangeKey : Facts.effectsChangeKey = Spec.effectsChangeKey := by rfl
+theorem effectsFinishAndNotify : Facts.effectsFinishAndNotify = Spec.effectsFinishAndNotify := by rfl
+theorem effectsCreateIfNotExists : Facts.effectsCreateIfNotExists = Spec.effectsCreateIfNotExists := by rfl
+theorem recompressTable : Facts.recompressTable = Spec.recompressTable := by rfl
+theorem cacheable4xxCacheControl : Facts.cacheable4xxCacheControl = Spec.cacheable4xxCacheControl := by rfl
+theorem cacheStatusHeader : Facts.cacheStatusHeader = Spec.cacheStatusHeader := by rfl
+theorem storePrepShape : Facts.storePrepShape = Spec.storePrepShape := by rfl
 
 end Pins
